@@ -185,6 +185,41 @@ theorem mul_spec (M : Modulus h32 n g) {b c : UPoly Nat} (hb : Valid h32 n b)
       rw [this, mul_zero]
   · exact times_unwrap M hb.1.1 hc.1.1
 
+/-- the product is literally the Euclidean remainder of the product in `F_p[X]` -/
+theorem mul_toPoly (M : Modulus h32 n g) {b c : UPoly Nat} (hb : Valid h32 n b)
+    (hc : Valid h32 n c) :
+    toPoly (PL h32) (Ext.mul p g b c) =
+      (toPoly (PL h32) b * toPoly (PL h32) c) %ₘ toPoly (PL h32) g := by
+  unfold Ext.mul
+  simp only []
+  split
+  · next hz =>
+    rw [show ([0] : UPoly Nat) = zero (primeOps p) from rfl, toPoly_zero]
+    rw [Bool.or_eq_true] at hz
+    rcases hz with hz | hz
+    · rw [(UPoly.isZero_iff (PL h32) hb.1).1 hz, zero_mul, zero_modByMonic]
+    · rw [(UPoly.isZero_iff (PL h32) hc.1).1 hz, mul_zero, zero_modByMonic]
+  · obtain ⟨r, h1, -, h3, -⟩ := times_spec' M hb.1.1 hc.1.1
+    rw [h1]
+    exact h3
+
+/-- a list of `n+1` coefficients `< p` ending in `1` is a modulus of degree `n` -/
+theorem modulus_of_list (hn : 1 ≤ n) (hlen : g.length = n + 1) (hc : ∀ c ∈ g, c < p)
+    (hlast : g.getD n 0 = 1) : Modulus h32 n g := by
+  have hne : g ≠ [] := by intro h; rw [h] at hlen; simp at hlen
+  have hlc : UPoly.lc (primeOps p) g = 1 := by
+    unfold UPoly.lc UPoly.coef UPoly.ld
+    rw [hlen]; exact hlast
+  have hwf : WF (PL h32) g := by
+    refine ⟨hc, (canon_iff_lc g).2 ⟨hne, fun _ => ?_⟩⟩
+    rw [hlc]; rfl
+  have hdeg : (toPoly (PL h32) g).natDegree = n := by
+    rw [natDegree_toPoly (PL h32) hwf]; unfold UPoly.ld; omega
+  refine ⟨hwf, ?_, hdeg, hn⟩
+  rw [Monic, ← embed_lc (PL h32) hwf, hlc]
+  show ((1 : ℕ) : ZMod p) = 1
+  exact Nat.cast_one
+
 /-! ### 2. canonical representatives -/
 
 theorem emb_injective (M : Modulus h32 n g) {a b : UPoly Nat} (ha : Valid h32 n a)
@@ -265,6 +300,28 @@ theorem ofInt_spec (M : Modulus h32 n g) (v : Int) :
   refine ⟨h1, ?_⟩
   show emb h32 g (Ext.unwrap (UPoly.ofCoefs (Ext.ring p g) [Prime.fromSigned p v])) = _
   rw [h2, Prime.cast_fromSigned hp h32, map_intCast]
+
+/-- `extOps.gen = PolynomialFromUnsigned [0, 1]` is the class of `X` (which generates the
+    multiplicative group when `g` is a Conway polynomial; that is C04/Conway, not proved here) -/
+theorem gen_spec (M : Modulus h32 n g) :
+    Valid h32 n (extOps p n g).gen ∧
+      emb h32 g (extOps p n g).gen = AdjoinRoot.root (toPoly (PL h32) g) := by
+  have hp : 0 < p := (Fact.out : p.Prime).pos
+  have hcs : AllValid (PL h32) [Prime.element p 0, Prime.element p 1] := by
+    intro x hx
+    simp only [List.mem_cons, List.not_mem_nil, or_false] at hx
+    rcases hx with rfl | rfl <;> exact Prime.element_lt hp
+  obtain ⟨r, h1, h2, h3, h4⟩ := ofCoefs_spec' M hcs
+  have e : (extOps p n g).gen = Ext.unwrap (UPoly.ofCoefs (Ext.ring p g)
+      [Prime.element p 0, Prime.element p 1]) := rfl
+  rw [e, h1]
+  refine ⟨valid_of_degree_lt M h2 h4, ?_⟩
+  show emb h32 g r = _
+  unfold emb
+  rw [h3, mk_modByMonic, ← AdjoinRoot.mk_X]
+  congr 1
+  simp only [toPoly_cons, toPoly_nil, primeLawfulFact_embed, Prime.cast_element]
+  simp
 
 /-! ### 4. the field `F_p[X]/(g)` and `pow` -/
 
@@ -626,13 +683,18 @@ theorem toPoly_gf9 : toPoly (PL h32_three) [2, 2, 1] = X ^ 2 + (C 2 * X + C 2) :
   ring
 
 theorem gf9_modulus : Modulus h32_three 2 [2, 2, 1] where
-  wf := ⟨by decide, by unfold Canon; decide⟩
+  wf := ⟨fun c hc => by
+    have : c ∈ [2, 2, 1] := hc
+    show c < 3
+    revert c; decide, by unfold Canon; decide⟩
   monic := by
     rw [toPoly_gf9]
     exact monic_X_pow_add (lt_of_le_of_lt degree_linear_le (by decide))
   deg := by
     rw [toPoly_gf9]
-    exact natDegree_X_pow_add (lt_of_le_of_lt degree_linear_le (by decide))
+    rw [natDegree_add_eq_left_of_degree_lt, natDegree_X_pow]
+    rw [degree_X_pow]
+    exact lt_of_le_of_lt degree_linear_le (by decide)
   npos := by decide
 
 /-- `a² + 2a + 2` has no root in GF(3), hence is irreducible -/
